@@ -245,6 +245,112 @@ fn main() {
             }
             println!("seq cases={}", ncases);
         }
+        "fault" => {
+            // C17: every history is first run fault-free to learn its request stream, then
+            // re-run with a failure injected at individual request indices (and with hole
+            // punching unsupported); results go to the oracle annotated on the op lines
+            let nops: usize = m.get("ops").and_then(|s| s.parse().ok()).unwrap_or(30);
+            let per_case: usize = m.get("points").and_then(|s| s.parse().ok()).unwrap_or(10);
+            let kinds: Vec<String> = m
+                .get("img")
+                .map(|s| s.split(',').map(|x| x.to_string()).collect())
+                .unwrap_or_else(|| vec!["format".to_string()]);
+            let mut inp = Vec::new();
+            let mut imp = Vec::new();
+            let mut nruns = 0;
+            for id in 0..n {
+                let kind = &kinds[id % kinds.len()];
+                let case = if kind == "format" {
+                    seq::gen_case(seed, id, seq::Profile::General, nops)
+                } else {
+                    seq::gen_built_case(seed, id, seq::Profile::General, nops, kind)
+                };
+                let images = match std::panic::catch_unwind(|| seq::case_images(&case)) {
+                    Ok(Ok(i)) => i,
+                    _ => continue,
+                };
+                let mk = |images: &seq::CaseImages| -> Vec<sim::SimFile> {
+                    images
+                        .files
+                        .iter()
+                        .enumerate()
+                        .map(|(i, f)| sim::SimFile::new(if i == 0 { "top" } else { "back" }, f.clone()))
+                        .collect()
+                };
+                // fault-free run
+                let files = mk(&images);
+                let mut r0 = seq::Runner::new(case.clone(), files, None);
+                r0.run();
+                let kinds0: Vec<(usize, char)> = r0.files[0].0.borrow().log.iter().map(|r| (r.id, r.kind.ch())).collect();
+                let total = kinds0.len();
+                if total == 0 {
+                    continue;
+                }
+                // fault points: spread over the stream, all request kinds
+                let mut rng = util::Rng::derive(seed, 17, id as u64);
+                let mut points: Vec<usize> = Vec::new();
+                for j in 0..per_case {
+                    points.push((j * total) / per_case + rng.below((total / per_case).max(1) as u64) as usize);
+                }
+                for kch in ['R', 'W', 'Z', 'S'] {
+                    let c: Vec<usize> = kinds0.iter().filter(|(_, k)| *k == kch).map(|(i, _)| *i).collect();
+                    if !c.is_empty() {
+                        points.push(c[rng.below(c.len() as u64) as usize]);
+                    }
+                }
+                points.retain(|p| *p < total);
+                points.sort();
+                points.dedup();
+                let mut variants: Vec<(String, Vec<usize>, bool)> = points
+                    .iter()
+                    .map(|p| (format!("single:{}:{}", p, kinds0[*p].1), vec![*p], false))
+                    .collect();
+                // random multi-request subsets and punch-unsupported
+                let multi: Vec<usize> = (0..total).filter(|_| rng.chance(1, 6)).collect();
+                variants.push((format!("multi:{}", multi.len()), multi, false));
+                variants.push(("punch-unsupported".into(), vec![], true));
+                for (vi, (vname, fails, punch)) in variants.into_iter().enumerate() {
+                    let mut c2 = case.clone();
+                    c2.id = id * 1000 + vi;
+                    let files = mk(&images);
+                    {
+                        let mut st = files[0].0.borrow_mut();
+                        for f in &fails {
+                            st.fail_ids.insert(*f);
+                        }
+                        st.punch_unsupported = punch;
+                    }
+                    if c2.img != "format" {
+                        for (i, f) in images.files.iter().enumerate() {
+                            std::fs::write(format!("{}/case{}.img{}", out, c2.id, i), f).unwrap();
+                        }
+                        write_lines(&format!("{}/case{}.comp", out, c2.id), &images.comp);
+                        write_lines(&format!("{}/case{}.flat", out, c2.id), &images.flat);
+                    }
+                    let mut r = seq::Runner::new(c2.clone(), files, Some(out.clone()));
+                    r.fault_mode = true;
+                    r.run();
+                    nruns += 1;
+                    // annotate the op lines with the results the real code returned
+                    let mut lines = c2.lines();
+                    for (k, res) in r.results.iter().enumerate() {
+                        if k + 1 < lines.len() {
+                            lines[k + 1] = format!("{} res={}", lines[k + 1], res);
+                        }
+                    }
+                    lines[0] = format!("{} fault={}", lines[0], vname);
+                    inp.extend(lines);
+                    imp.push(format!("case {}", c2.id));
+                    imp.extend(r.out.drain(..));
+                    let fired = r.files[0].0.borrow().log.iter().filter(|q| q.failed).count();
+                    imp.push(format!("faults fired={} variant={}", fired, vname));
+                    imp.push("end".into());
+                }
+            }
+            write_lines(&format!("{}/seq.in", out), &inp);
+            write_lines(&format!("{}/seq.impl", out), &imp);
+            println!("fault runs={}", nruns);
+        }
         "respond" => {
             // answer request lines from a file (replay)
             let inp = m.get("in").cloned().unwrap();
